@@ -4458,11 +4458,15 @@ class ParseCtx:
                 i += 1
                 if contents[i] == "x" or contents[i] == "u":
                     if contents[i] == "u":
-                        raise NotImplementedError("don't support uescapes yet")
+                        raise IllegalParseTree(f"Unsupported \\u escape in string literal {escaped_string}")
                     code = contents[i+1:i+3]
+                    if len(code) != 2 or code[0] not in string.hexdigits or code[1] not in string.hexdigits:
+                        raise IllegalParseTree(f"Malformed \\x escape in string literal {escaped_string}; expected two hex digits")
                     result += chr(int(code, base=16))
                     i += 3
                 else:
+                    if contents[i] not in "nrtb0\"\\":
+                        raise IllegalParseTree(f"Unknown escape \\{contents[i]} in string literal {escaped_string}")
                     result += {
                         'n': '\n',
                         'r': '\r',
